@@ -662,7 +662,11 @@ def _d2_d3(ctx):
     starts = [s for s in walk_no_nested(loop) if isinstance(s, ast.Assign) and len(s.targets) == 1 and isinstance(s.targets[0], ast.Name)
               and isinstance(_strip_yield(s.value), ast.Call) and norm_text(_strip_yield(s.value).func) == sess + '.start'
               and s.value is not _strip_yield(s.value)]
-    if len(starts) != 1 or len(defs.get(starts[0].targets[0].id, [])) != 1:
+    # (a `response = None` in front of the start, inside the loop, only says "nothing started yet" to the handlers)
+    def _others(name):
+        return [v for v, k, st in defs.get(name, []) if st is not starts[0] and not (k == 'assign' and isinstance(v, ast.Constant) and v.value is None
+                                                                                       and any(st is x for x in walk_no_nested(loop)) and st.lineno < starts[0].lineno)]
+    if len(starts) != 1 or _others(starts[0].targets[0].id):
         ck.bad('C20-D2', fr.qual, 'response = yield from session.start()', 'the response examined after the loop is not the '
                'single result of session.start() of the robots.txt session', fr.loc(loop))
         return
@@ -1067,6 +1071,37 @@ def _d4(ctx):
         if not hs:
             ck.ok('C20-D4', fi.qual, 'no exception handler between the robots fetch and _process_robots', nontrivial=False)
     ck.remark('%s.fetch_robots_txt: a ProtocolError while fetching robots.txt is treated as an empty file (allow all), as in the pinned tree; not decided by C20' % CHK)
+    # ... but not when the header already said 5xx: a server error postpones the URL whatever the body does afterwards (a 503 page
+    # with a corrupt gzip body raises ProtocolError in download()).  Where a handler of the fetch accepts the file as blank, the status
+    # of the response that was started has been asked first - in the handler, or between start() and download()
+    fr_ = repo.func(CHK + '.fetch_robots_txt')
+
+    def asks_5xx(nodes):
+        for x in nodes:
+            for y in ast.walk(x):
+                if isinstance(y, ast.Compare) and any(isinstance(z, ast.Attribute) and z.attr == 'status_code' for z in ast.walk(y)) \
+                        and any(isinstance(z, ast.Constant) and z.value in (500, 499, 599, 600, 5) for z in ast.walk(y)):
+                    return True
+        return False
+    for tr in [x for x in walk_no_nested(fr_.node) if isinstance(x, ast.Try)]:
+        if not any(U.attr_name(c) == 'download' for b in tr.body for c in U.calls(b)):
+            continue
+        for h in tr.handlers:
+            blanks = [c for c in U.calls(h) if U.attr_name(c) == '_accept_as_blank']
+            if not blanks:
+                continue
+            between = []
+            seen_start = False
+            for b in tr.body:
+                if any(U.attr_name(c) == 'download' for c in U.calls(b)):
+                    break
+                if seen_start:
+                    between.append(b)
+                if any(U.attr_name(c) == 'start' for c in U.calls(b)):
+                    seen_start = True
+            ck.expect(asks_5xx(h.body) or asks_5xx(between), 'C20-D4', fr_.qual, 'a 5xx header is a server error even when the body then fails to read',
+                      'the handler takes a ProtocolError of the body read for "no robots.txt" without asking the status that start() returned: '
+                      '`503` + an undecodable body makes every URL of the origin allowed instead of postponed', fr_.loc(h))
 
     # ---- wiring
     fmap = res.factory_map()
